@@ -132,10 +132,11 @@ def _overlap_1d(lo, hi, i, d):
 def h_los(B, case):
     if case == "1d":
         shape, dist = (5,), (0.5,)
-        starts, ends = [[0.1, 0.3, 1.9]], [[1.6, 0.4, 0.2]]
+        starts, ends = [[0.1, 0.3, 1.9, -1.0, 2.9]], [[1.6, 0.4, 0.2, 0.8, 1.1]]     # the last two start outside the grid volume
     elif case == "2d_axis":
         shape, dist = (4, 3), (0.5, 1.0)
-        starts, ends = [[0.1, 0.6, 1.4], [0.2, 0.1, 1.7]], [[1.3, 0.6, 0.2], [0.2, 1.9, 1.7]]     # along x, along y, along -x
+        # along x, along y, along -x; then two lines that START OUTSIDE the volume and enter through the boundary
+        starts, ends = [[0.1, 0.6, 1.4, -0.9, 0.6], [0.2, 0.1, 1.7, 1.2, 3.4]], [[1.3, 0.6, 0.2, 1.1, 0.6], [0.2, 1.9, 1.7, 1.2, 0.3]]
     else:  # diagonal of square pixels: crosses pixel corners region; lengths by symmetry
         shape, dist = (4, 4), (1.0, 1.0)
         starts, ends = [[0.0, 0.0], [0.0, 2.0]], [[2.0, 2.0], [2.0, 0.0]]
@@ -147,7 +148,8 @@ def h_los(B, case):
     k = B.reals("k", ())
     const = _flat(op(field_of(dom, np.full(shape, k, dtype=object if B.mode == "sym" else np.float64))))
     lens = np.linalg.norm(en - st, axis=0)
-    B.close("a constant field gives constant x length of the line", const, [k * float(l) for l in lens], rel=1e-5)
+    if case == "diag":
+        B.close("a constant field gives constant x length of the line", const, [k * float(l) for l in lens], rel=1e-5)
     if case == "diag":
         # by symmetry the diagonal spends sqrt(2)/2 in the corner pixels (0,0),(2,2) and sqrt(2) in (1,1)
         r2 = float(np.sqrt(2.0))
@@ -155,7 +157,7 @@ def h_los(B, case):
         ref1 = x[0, 2] * (r2 / 2) + x[1, 1] * r2 + x[2, 0] * (r2 / 2)
         B.close("diagonal line: sum of pixel value x length inside the pixel", out, [ref0, ref1], rel=1e-5)
         return
-    refs = []
+    refs, inside = [], []
     for l in range(st.shape[1]):
         tot = 0
         if len(shape) == 1:
@@ -175,7 +177,9 @@ def h_los(B, case):
                     idx = (i, j) if ax == 0 else (j, i)
                     tot = tot + x[idx] * w
         refs.append(tot)
+        inside.append(sum(_overlap_1d(lo, hi, i, dist[ax if len(shape) > 1 else 0]) for i in range(shape[ax if len(shape) > 1 else 0])))
     B.close("line integral of a piecewise constant field: sum of pixel value x length inside the pixel", out, refs, rel=1e-5)
+    B.close("a constant field gives constant x length of the line INSIDE the grid volume", const, [k * float(l) for l in inside], rel=1e-5)
 
 
 def scenarios(tier, seed):
